@@ -453,9 +453,12 @@ class TestNode(Runnable):
         :param worker: test worker with respect to which to consider various scopes
         """
         # by default only reentrancy of 1 is allowed independently of previous results
-        max_tries = self.params.get_numeric("max_tries", 1)
+        # the default number of tries is the one the rerun decision uses
+        max_tries = self.params.get_numeric(
+            "max_tries", 2 if self.params.get("replay") else 1
+        )
         max_concurrent_tries = self.params.get_numeric(
-            "max_concurrent_tries", max_tries
+            "max_concurrent_tries", self.params.get_numeric("max_tries", 1)
         )
         if max_concurrent_tries <= max_tries:
             # a worker can only join in with a try of its own so the tries that are already
